@@ -7,7 +7,22 @@ HERE = os.path.dirname(os.path.abspath(__file__))
 sys.path.insert(0, HERE)
 
 
+def _on_term(sig, frm):
+    # an external time limit: take the pool's workers down with us instead of leaving them orphaned
+    import multiprocessing as mp
+
+    for c in mp.active_children():
+        try:
+            c.terminate()
+        except Exception:  # noqa: BLE001
+            pass
+    os._exit(143)
+
+
 def main():
+    import signal
+
+    signal.signal(signal.SIGTERM, _on_term)
     ap = argparse.ArgumentParser()
     ap.add_argument("target")
     ap.add_argument("path", nargs="?")
